@@ -15,9 +15,55 @@
  * and every iovec returned by r_buf_data_get is range-checked here against
  * [r_buf->buf, r_buf->buf + r_buf->size) BEFORE it is touched.  The reader's iovec array is
  * an exact-size heap block (ASan sees an overrun of the array itself).
+ *
+ * Mapping fence: the driver is linked with --wrap=mmap/--wrap=munmap, so every mapping the
+ * library makes (ring storage, block table) is placed between two PROT_NONE guard pages of
+ * its own.  A store or load of the library just outside either mapping (one block-table
+ * entry too many, ring byte size+k) then faults at once instead of landing silently in
+ * whatever the kernel happened to map next to it (normally the other of the two mappings).
  */
 #include "vdrv.h"
 #include "utils/ring_buffer.h"
+#include <sys/mman.h>
+
+void *__real_mmap(void *addr, size_t len, int prot, int flags, int fd, off_t off);
+int __real_munmap(void *addr, size_t len);
+#define FENCE_MAX 16
+static struct { uint8_t *user; size_t len; } g_fence[FENCE_MAX];
+static size_t g_fence_maps = 0, g_fence_unmaps = 0;
+
+void *__wrap_mmap(void *addr, size_t len, int prot, int flags, int fd, off_t off) {
+	size_t pg = (size_t)sysconf(_SC_PAGESIZE), rlen = (len + pg - 1) & ~(pg - 1), i;
+	uint8_t *res, *u;
+	if (addr != NULL || (flags & MAP_FIXED) || len == 0)
+		return __real_mmap(addr, len, prot, flags, fd, off);
+#ifdef MAP_HUGETLB
+	if (flags & MAP_HUGETLB) { errno = ENOMEM; return MAP_FAILED; }   /* no huge pages here: the library retries without */
+#endif
+	for (i = 0; i < FENCE_MAX && g_fence[i].user; i++) ;
+	if (i == FENCE_MAX) return __real_mmap(addr, len, prot, flags, fd, off);
+	res = __real_mmap(NULL, rlen + 2 * pg, PROT_NONE, MAP_PRIVATE | MAP_ANONYMOUS, -1, 0);
+	if (res == MAP_FAILED) return MAP_FAILED;
+	u = __real_mmap(res + pg, len, prot, flags | MAP_FIXED, fd, off);
+	if (u == MAP_FAILED) { int e = errno; __real_munmap(res, rlen + 2 * pg); errno = e; return MAP_FAILED; }
+	g_fence[i].user = u; g_fence[i].len = rlen;
+	g_fence_maps++;
+	return u;
+}
+
+int __wrap_munmap(void *addr, size_t len) {
+	size_t pg = (size_t)sysconf(_SC_PAGESIZE), i;
+	for (i = 0; i < FENCE_MAX; i++) {
+		if (g_fence[i].user && g_fence[i].user == (uint8_t *)addr) {
+			size_t rlen = g_fence[i].len;
+			g_fence[i].user = NULL;
+			g_fence_unmaps++;
+			(void)len;
+			return __real_munmap((uint8_t *)addr - pg, rlen + 2 * pg);
+		}
+	}
+	return __real_munmap(addr, len);
+}
 
 enum { OP_NEW = 0, OP_WRITE = 1, OP_RINIT = 2, OP_READ = 3, OP_FREE = 4 };
 #define MAX_READERS 8
@@ -82,6 +128,12 @@ int main(void) {
 				g_blk_cap = 1024; g_blk = calloc(g_blk_cap, sizeof(blk_t)); g_blk_cnt = 1;
 				vout_u64(&o, g_rb->size); vout_u64(&o, g_rb->iov_count);
 				vout_u8(&o, region_ok(g_rb->buf, g_rb->size) && g_rb->buf_max == g_rb->buf + g_rb->size);
+				{	/* both library mappings of this ring are fenced? */
+					size_t i, f = 0;
+					for (i = 0; i < FENCE_MAX; i++)
+						if (g_fence[i].user == (uint8_t *)g_rb->buf || g_fence[i].user == (uint8_t *)g_rb->iov) f++;
+					vout_u8(&o, (uint8_t)f);
+				}
 			}
 			vout_flush(&o); free(c);
 			continue;
